@@ -81,6 +81,7 @@ Inductive call :=
 | PutCreate (p : path) (c : content)    (* put_opts(PutMode::Create): AlreadyExists if present *)
 | RenameINE (a b : path)                (* rename_if_not_exists *)
 | Del (p : path)                        (* delete *)
+| Copy (a b : path)                     (* copy (index remap copies unchanged index files); not used by the commit path itself *)
 | HeadAbsent (p : path)                 (* head(p) that must answer NotFound (CommitLock handler) *)
 | Nop.                                  (* a call that does not touch the store (lock / release) *)
 
@@ -95,6 +96,7 @@ Definition step (s : store) (c : call) : option store :=
       | Some x => if has s b then None else Some (put (del s a) b x)
       end
   | Del p => Some (del s p)
+  | Copy a b => match get s a with None => None | Some x => Some (put s b x) end
   | HeadAbsent p => if has s p then None else Some s
   | Nop => Some s
   end.
@@ -114,7 +116,11 @@ Fixpoint completes (w : list call) (s : store) : bool :=
 (* ---------- the writer ---------- *)
 (* what an operation hands to the commit path *)
 Record txn := {
-  t_files : list N;        (* payloads of the data / deletion / index files the operation writes, in order *)
+  t_files : list (N * bool); (* the data / deletion / index files the operation writes before this commit, in order:
+                              payload, and whether the new manifest references the file (compaction writes its
+                              rewritten files before its first commit, ReserveFragments, which does not reference them) *)
+  t_adopt : list N;        (* files written by an earlier phase of the same operation (already in the store) that the
+                              new manifest references: the second commit of compact_files, Rewrite *)
   t_base : option N;       (* Some v: the new manifest is derived from version v (Restore{version v}; a detached
                               commit on a checked-out version v); None: from the latest version *)
   t_keep : list bool;      (* which of the base manifest's references the new manifest keeps
@@ -139,7 +145,9 @@ Definition next_file (s : store) : N := max_file s + 1.
 (* ids of the files the operation writes; the last one is the transaction file (write_transaction_file) *)
 Definition new_ids (s : store) (t : txn) : list N := seqN (next_file s) (S (length (t_files t))).
 Definition file_puts (s : store) (t : txn) : list call :=
-  map (fun idd => Put (PFile (fst idd)) (CFile (snd idd))) (combine (new_ids s t) (t_files t ++ [0])).
+  map (fun idd => Put (PFile (fst idd)) (CFile (snd idd))) (combine (new_ids s t) (map fst (t_files t) ++ [0])).
+(* the new files the manifest references: the flagged ones and the transaction file *)
+Definition new_refs (s : store) (t : txn) : list N := mask (map snd (t_files t) ++ [true]) (new_ids s t).
 
 (* the references inherited from the base manifest; None = that version cannot be read (the operation errs) *)
 Definition base_refs (s : store) (t : txn) : option (list N) :=
@@ -173,7 +181,7 @@ Definition commit_point (h : hkind) : nat :=
   match h with HCondPut => 0 | HRename => 1 | HLock => 2 | HUnsafe => 0 end%nat.
 
 Definition new_manifest (s : store) (t : txn) (inh : list N) : manifest :=
-  {| m_version := target s t; m_refs := new_ids s t ++ mask (t_keep t) inh |}.
+  {| m_version := target s t; m_refs := new_refs s t ++ mask (t_keep t) inh ++ t_adopt t |}.
 
 Definition refused (s : store) (t : txn) : bool :=
   match t_detached t with Some _ => false | None => is_detached (target s t) end.
@@ -229,7 +237,7 @@ Definition content_of_code (p : path) (mv : N) (refs : list N) : content :=
 Definition store_of_codes (l : list ((N * N) * (N * list N))) : store :=
   map (fun e => let p := path_of_code (fst e) in (p, content_of_code p (fst (snd e)) (snd (snd e)))) l.
 
-(* call code (kind, (a, b)): 0 put a   1 put_opts(Create) a   2 rename_if_not_exists a b   3 delete a *)
+(* call code (kind, (a, b)): 0 put a   1 put_opts(Create) a   2 rename_if_not_exists a b   3 delete a   4 copy a b *)
 (* replay state: store, manifests not yet published, all protocol checks so far hold *)
 Definition mk_man (x : N * list N) : manifest := {| m_version := fst x; m_refs := snd x |}.
 
@@ -276,6 +284,12 @@ Fixpoint replay (calls : list (N * ((N * N) * (N * N)))) (mans : list (N * list 
                    | _, _ => replay r mans s' false
                    end
               else replay r mans s' ok
+          end
+      | 4 =>
+          (* copy of a file to a new file *)
+          match pa, pb, step s (Copy pa pb) with
+          | PFile _, PFile _, Some s' => replay r mans s' ok
+          | _, _, _ => None
           end
       | 3 =>
           (* the write path never deletes a published manifest or a file; only staging files *)
@@ -335,31 +349,32 @@ Definition call_manifest (c : call) : option (N * list N) :=
   | Put p (CMan m) | PutCreate p (CMan m) => if is_manifest_path p then Some (m_version m, m_refs m) else None
   | _ => None
   end.
-Definition published_by (w : list call) (s : store) : option (N * list N) :=
+Definition published_by (w : list call) : option (N * list N) :=
   (* the manifest the program publishes (content of the publishing call / of the staging file renamed) *)
   match filter (fun c => match c with Put _ (CMan _) | PutCreate _ (CMan _) => true | _ => false end) w with
   | Put _ (CMan m) :: _ | PutCreate _ (CMan m) :: _ => Some (m_version m, m_refs m)
   | _ => None
   end.
 
-Definition txn_of_code (x : (N * (N * N)) * (list bool * N)) : txn :=
-  (* ((number of files, (base + 1 or 0, detached random + 1 or 0)), (keep mask, unused)) *)
-  let '((nf, (b, d)), (keep, _)) := x in
-  {| t_files := repeat 0 (N.to_nat nf);
+Definition txn_of_code (x : (list bool * (N * N)) * (list bool * list N)) : txn :=
+  (* ((referenced flag of each file written, (base + 1 or 0, detached random + 1 or 0)), (keep mask, adopted files)) *)
+  let '((fl, (b, d)), (keep, adopt)) := x in
+  {| t_files := map (fun r => (0, r)) fl;
+     t_adopt := adopt;
      t_base := if b =? 0 then None else Some (b - 1);
      t_keep := keep;
      t_detached := if d =? 0 then None else Some (d - 1) |}.
 
 (* input: (pre-state, (handler code, transaction)); output: the recorded mutating calls of one commit of a clean
-   run and the (version, references) of the manifest it published *)
-Definition chk_prog (i : list ((N * N) * (N * list N)) * (N * ((N * (N * N)) * (list bool * N))))
+   run (a copy that creates a file counts as a put) and the (version, references) of the manifest it published *)
+Definition chk_prog (i : list ((N * N) * (N * list N)) * (N * ((list bool * (N * N)) * (list bool * list N))))
                     (o : list (N * ((N * N) * (N * N))) * (N * list N)) : bool :=
   let '(pre, (h, tx)) := i in
   let s := store_of_codes pre in
   let w := write_program s (kind_of_code h) (txn_of_code tx) in
   list_eqb (pair_eqb N.eqb (pair_eqb (pair_eqb N.eqb N.eqb) (pair_eqb N.eqb N.eqb)))
            (map code_of_call (filter mutating w)) (fst o)
-  && match published_by w s with
+  && match published_by w with
      | Some (v, refs) => (v =? fst (snd o)) && list_eqb N.eqb refs (snd (snd o))
      | None => false
      end.
